@@ -35,7 +35,7 @@ class DeleteRoles:
             raise AnalysisError('delete_snapshots: loop target is not (path, body)')
         # nested deleters: nested function that awaits self._delete(...)
         self.deleters = {}
-        for sub in fn.nested.values():
+        for sub in fn.all_nested():
             kinds = set()
             for c in self_calls(sub.node, {'_delete', '_delete_threadsafe'}):
                 arg = c.args[0] if c.args else None
@@ -48,6 +48,16 @@ class DeleteRoles:
             if kinds:
                 uses_chunk_builder = any(True for _ in self_calls(sub.node, {'_chunk_digest_to_location', 'get_chunk_location'}))
                 self.deleters[sub.name] = 'chunk' if uses_chunk_builder else 'snapshot'
+        # a nested function that only wraps a deleter (calls it with its own parameter: progress accounting etc.) deletes what
+        # the wrapped one deletes
+        for _ in range(2):
+            for sub in fn.all_nested():
+                if sub.name in self.deleters:
+                    continue
+                params = [a.arg for a in sub.node.args.args]
+                for c in calls_in(sub.node):
+                    if isinstance(c.func, ast.Name) and c.func.id in self.deleters and c.args and isinstance(c.args[0], ast.Name) and c.args[0].id in params:
+                        self.deleters[sub.name] = self.deleters[c.func.id]
         # join statements: own-body statements that apply a deleter
         self.joins = {}  # kind -> list of (stmt, iterable names)
         for st in fn.node.body + [s for n in walk_local(fn.node) if isinstance(n, (ast.With, ast.AsyncWith)) for s in n.body]:
